@@ -92,6 +92,7 @@ NatOf(m) == NatOfFrom(m, 1)          \* only for small values (native TLC intege
    types   [k |-> "int", size, signed] | [k |-> "bool"] | [k |-> "char"]
            | [k |-> "float", size] (4: float, 8: double) | [k |-> "ptr", item]
            | [k |-> "struct", tag, fields] | [k |-> "void"]
+           | [k |-> "arr", item, len]  (a struct field that is an array; nested for n dimensions)
    Python  [k |-> "int", neg, mag, fl, flovf]   fl = <<image>>: its float value if known
            [k |-> "float", d, f, fd]   IEEE images: as double, narrowed to float, that float
                                        widened again (supplied by the reference compiler)
@@ -103,10 +104,11 @@ NatOf(m) == NatOfFrom(m, 1)          \* only for small values (native TLC intege
            [k |-> "cfloat", ct, d, f, fd]   <cdata 'float'/'double'>
            [k |-> "cptr", ct, cell]         pointer or (decayed) array cdata; cell 0 = NULL
            [k |-> "cstruct", ct, vals]      struct cdata, vals = Python values of its fields
+           [k |-> "carr", vals]             (results only) the array cdata of a struct's array field
    C       integer, _Bool, char: digit sequence of the type's size
            float/double: [img |-> digits, asd |-> image as double]
            pointer: [ref |-> "null" | "cell" | "tmp" | "bytes", id, data]
-           struct: sequence of field C values *)
+           struct: sequence of field C values;  array field: sequence of item C values *)
 
 IntT(s, sg) == [k |-> "int", size |-> s, signed |-> sg]
 BoolT == [k |-> "bool"]
@@ -181,9 +183,11 @@ PtrCompat(a, b) == \/ a = b
 \* a bytes object may be passed for void*, char* and pointers to one-byte integers
 BytesItem(t) == t.k \in {"void", "char", "bool"} \/ (t.k = "int" /\ t.size = 1)
 
+RECURSIVE ZeroC(_)
 ZeroC(t) == CASE t.k \in {"int", "bool", "char"} -> Zeros(SizeOf(t))
               [] t.k = "float" -> [img |-> Zeros(t.size), asd |-> Zeros(8)]
               [] t.k = "ptr" -> Null
+              [] t.k = "arr" -> TLCEval([i \in 1..t.len |-> ZeroC(t.item)])
               [] OTHER -> <<>>
 \* the bytes of a scalar C value in memory
 BytesOf(t, c) == IF t.k = "float" THEN c.img ELSE c
@@ -224,6 +228,12 @@ ConvertItem(t, v) ==
       [] t.k = "char" -> ConvChar(v)
       [] t.k = "float" -> ConvFloat(t, v)
       [] t.k = "struct" -> ConvStruct(t, v)
+      [] t.k = "arr" ->          \* array field: list/tuple of items, the rest zero; too many: IndexError
+           IF v.k # "list" THEN Err("TypeError")
+           ELSE IF Len(v.items) > t.len THEN Err("IndexError")
+           ELSE LET r == ConvSeq(TLCEval([i \in 1..Len(v.items) |-> t.item]), v.items, 1) IN
+                IF ~r.ok THEN r
+                ELSE Ok(TLCEval([i \in 1..t.len |-> IF i <= Len(r.c) THEN r.c[i] ELSE ZeroC(t.item)]))
       [] t.k = "ptr" -> IF v.k = "cptr" /\ PtrCompat(t, v.ct)
                         THEN Ok(IF v.cell = 0 THEN Null ELSE CellRef(v.cell))
                         ELSE Err("TypeError")
@@ -259,6 +269,7 @@ ToPy(t, c) ==
                                   ELSE IF c.ref = "cell" THEN c.id ELSE 0 - 1]
       [] t.k = "struct" -> [k |-> "cstruct", ct |-> t,
                             vals |-> TLCEval([i \in 1..Len(t.fields) |-> ToPy(t.fields[i], c[i])])]
+      [] t.k = "arr" -> [k |-> "carr", vals |-> TLCEval([i \in 1..t.len |-> ToPy(t.item, c[i])])]
       [] t.k = "void" -> None
 
 \* equality of Python results (a pointer into temporary storage, cell -1, is not compared)
@@ -270,6 +281,8 @@ PyEq(a, b) ==
          [] a.k = "bytes" -> a.data = b.data
          [] a.k = "pybool" -> a.b = b.b
          [] a.k = "cptr" -> a.ct = b.ct /\ (a.cell = b.cell \/ a.cell = 0 - 1 \/ b.cell = 0 - 1)
+         [] a.k = "carr" -> /\ Len(a.vals) = Len(b.vals)
+                            /\ \A i \in 1..Len(a.vals) : PyEq(a.vals[i], b.vals[i])
          [] a.k = "cstruct" -> /\ a.ct = b.ct /\ Len(a.vals) = Len(b.vals)
                                /\ \A i \in 1..Len(a.vals) : PyEq(a.vals[i], b.vals[i])
          [] OTHER -> TRUE
